@@ -244,7 +244,8 @@ type packetConn struct {
 	lastPacket *packet
 	lastBuf    *bytes.Reader
 
-	// stores time.Time as Unix as Read maybe called concurrently with SetReadDeadline
+	// stores time.Time as UnixNano (0 for the zero time, i.e. no deadline)
+	// as Read maybe called concurrently with SetReadDeadline
 	deadline      atomic.Int64
 	deadlineTimer *time.Timer
 	idleTimer     *time.Timer
@@ -252,7 +253,11 @@ type packetConn struct {
 
 // SetReadDeadline sets the deadline to wait for data from the underlying net.PacketConn.
 func (pc *packetConn) SetReadDeadline(t time.Time) error {
-	pc.deadline.Store(t.Unix())
+	if t.IsZero() {
+		pc.deadline.Store(0)
+	} else {
+		pc.deadline.Store(t.UnixNano())
+	}
 	if pc.deadlineTimer != nil {
 		pc.deadlineTimer.Reset(time.Until(t))
 	} else {
@@ -264,8 +269,9 @@ func (pc *packetConn) SetReadDeadline(t time.Time) error {
 // TODO: idle timeout should be configurable per server
 const udpAssociationIdleTimeout = 30 * time.Second
 
-func isDeadlineExceeded(t time.Time) bool {
-	return !t.IsZero() && t.Before(time.Now())
+// isDeadlineExceeded takes a deadline as stored by SetReadDeadline.
+func isDeadlineExceeded(unixNano int64) bool {
+	return unixNano != 0 && time.Unix(0, unixNano).Before(time.Now())
 }
 
 func (pc *packetConn) Read(b []byte) (n int, err error) {
@@ -281,7 +287,7 @@ func (pc *packetConn) Read(b []byte) (n int, err error) {
 		return
 	}
 	// check deadline
-	if isDeadlineExceeded(time.Unix(pc.deadline.Load(), 0)) {
+	if isDeadlineExceeded(pc.deadline.Load()) {
 		return 0, os.ErrDeadlineExceeded
 	}
 	// set or refresh idle timeout
@@ -313,7 +319,7 @@ func (pc *packetConn) Read(b []byte) (n int, err error) {
 			return
 		case <-pc.deadlineTimer.C:
 			// deadline may change during the wait, recheck
-			if isDeadlineExceeded(time.Unix(pc.deadline.Load(), 0)) {
+			if isDeadlineExceeded(pc.deadline.Load()) {
 				return 0, os.ErrDeadlineExceeded
 			}
 			// next loop will run. Don't call Read as that will reset the idle timer.
